@@ -26,6 +26,8 @@ Definition hstep (cf : cfg) (sp : hspec) (e : ev) : hspec :=
       if hs_in sp
       then {| hs_in := false; hs_n := hs_n sp; hs_hook := if cf_hook cf then hook_stop (hs_hook sp) else hs_hook sp |}
       else sp
+  | EvDispose =>
+      {| hs_in := false; hs_n := hs_n sp; hs_hook := if hs_in sp && cf_hook cf then hook_stop (hs_hook sp) else hs_hook sp |}
   | _ => sp
   end.
 
@@ -47,7 +49,7 @@ Qed.
 Lemma hrel_step cf s sp e : hrel s sp -> hrel (step cf s e) (hstep cf sp e).
 Proof.
   intros (Hin & Hn & Hh).
-  destruct e as [m|k id|id| | |b| |v|pid|raw]; cbn [step hstep].
+  destruct e as [m|k id|id| | |b| |v|pid|raw|]; cbn [step hstep].
   - destruct (Nat.eqb (length (rm_payload m)) 0) eqn:Hne.
     + unfold publish. rewrite Hne. unfold hrel. cbn [g_in g_next g_hook hs_in hs_n hs_hook negb andb].
       repeat split; try assumption. congruence.
@@ -65,6 +67,7 @@ Proof.
   - unfold hrel. cbn [g_in g_next g_hook]. repeat split; assumption.
   - unfold hrel, set_subs. cbn [g_in g_next g_hook]. repeat split; assumption.
   - unfold feed_rtp, hrel. cbn [g_in g_next g_hook]. repeat split; assumption.
+  - unfold hrel. cbn [g_in g_next g_hook hs_in hs_n hs_hook]. rewrite Hin, Hh. repeat split; assumption.
 Qed.
 
 Theorem hook_follows_history cf h : hrel (run cf h) (hrun cf h).
@@ -88,7 +91,7 @@ Definition hook_ok (cf : cfg) (inn : bool) (hk : list (list nat * nat)) : Prop :
 Lemma hook_ok_step cf sp e : hook_ok cf (hs_in sp) (hs_hook sp) -> hook_ok cf (hs_in (hstep cf sp e)) (hs_hook (hstep cf sp e)).
 Proof.
   unfold hook_ok. intro H.
-  destruct e as [m|k id|id| | |b| |v|pid|raw]; cbn [hstep]; try exact H.
+  destruct e as [m|k id|id| | |b| |v|pid|raw|]; cbn [hstep]; try exact H.
   - cbn [hs_in hs_hook]. destruct (cf_hook cf) eqn:Hc.
     + rewrite Bool.andb_true_r. destruct (hs_in sp) eqn:Hi.
       * rewrite Bool.andb_true_r. destruct (negb _); [|exact H].
@@ -98,6 +101,10 @@ Proof.
   - destruct (hs_in sp) eqn:Hi; [now rewrite Hi|]. cbn [hs_in hs_hook].
     destruct (cf_hook cf); [split; [reflexivity|exact H]|exact H].
   - destruct (hs_in sp) eqn:Hi; [|now rewrite Hi]. cbn [hs_in hs_hook].
+    destruct (cf_hook cf); [|exact H].
+    destruct (hs_hook sp) as [|[ms st] t]; [contradiction|]. destruct H as [H1 H2]. subst st.
+    constructor; [reflexivity|exact H2].
+  - cbn [hs_in hs_hook]. destruct (hs_in sp) eqn:Hi; cbn [andb]; [|exact H].
     destruct (cf_hook cf); [|exact H].
     destruct (hs_hook sp) as [|[ms st] t]; [contradiction|]. destruct H as [H1 H2]. subst st.
     constructor; [reflexivity|exact H2].
@@ -142,6 +149,7 @@ Definition tstep (cf : cfg) (sp : tspec) (e : ev) : tspec :=
               tp_rec := if cf_record_ts cf then [] :: tp_rec sp else tp_rec sp |}
   | EvInStop =>
       if tp_in sp then {| tp_in := false; tp_ts := tp_ts sp; tp_pat := tp_pat sp; tp_rec := tp_rec sp |} else sp
+  | EvDispose => {| tp_in := false; tp_ts := tp_ts sp; tp_pat := tp_pat sp; tp_rec := tp_rec sp |}
   | _ => sp
   end.
 
@@ -162,7 +170,7 @@ Qed.
 Lemma trel_step cf s sp e : trel s sp -> trel (step cf s e) (tstep cf sp e).
 Proof.
   intros (Hin & Hn & Hp & Hr).
-  destruct e as [m|k id|id| | |b| |v|pid|raw]; cbn [step tstep].
+  destruct e as [m|k id|id| | |b| |v|pid|raw|]; cbn [step tstep].
   - destruct (publish_ts_fields cf s m) as (P1 & P2 & P3 & P4). unfold trel. rewrite P1, P2, P3, P4. repeat split; assumption.
   - destruct (existsb _ _); unfold trel, set_subs; cbn [g_in g_next_ts g_next_pat g_trec]; repeat split; assumption.
   - destruct (partition _ _). unfold trel. cbn [g_in g_next_ts g_next_pat g_trec]. repeat split; assumption.
@@ -176,6 +184,7 @@ Proof.
   - unfold trel. cbn [g_in g_next_ts g_next_pat g_trec]. repeat split; assumption.
   - unfold trel, set_subs. cbn [g_in g_next_ts g_next_pat g_trec]. repeat split; assumption.
   - unfold feed_rtp, trel. cbn [g_in g_next_ts g_next_pat g_trec]. repeat split; assumption.
+  - unfold trel. cbn [g_in g_next_ts g_next_pat g_trec tp_in tp_ts tp_pat tp_rec]. repeat split; assumption.
 Qed.
 
 Theorem trec_follows_history cf h : trel (run cf h) (trun cf h).
@@ -195,7 +204,7 @@ Qed.
 Theorem no_input_no_trec cf s e : g_in s = false -> e <> EvInStart -> g_trec (step cf s e) = g_trec s.
 Proof.
   intros Hin He.
-  destruct e as [m|k id|id| | |b| |v|pid|raw]; cbn [step].
+  destruct e as [m|k id|id| | |b| |v|pid|raw|]; cbn [step].
   - apply publish_ts_fields.
   - destruct (existsb _ _); reflexivity.
   - destruct (partition _ _); reflexivity.
@@ -206,4 +215,49 @@ Proof.
   - reflexivity.
   - reflexivity.
   - reflexivity.
+  - reflexivity.
+Qed.
+
+(* ------------------------------------------------------------------ *)
+(* Group.Dispose(): server shutdown / removal of the group *)
+
+Lemma gc_clear_empty (g : gop_cache label) : gc_count (gc_clear g) = 0%nat /\ gc_all (gc_clear g) = [].
+Proof.
+  assert (H0 : gc_count (gc_clear g) = 0%nat).
+  { unfold gc_count. cbn [gc_clear gc_last gc_first gc_size]. rewrite Nat.add_0_l, Nat.sub_0_r.
+    destruct (gc_size g) as [|n]; [reflexivity|]. apply Nat.mod_same. lia. }
+  split; [exact H0|]. unfold gc_all. now rewrite H0.
+Qed.
+
+(* every sub session is disposed holding exactly what it had received, the
+   input is torn down as by delIn (recordings closed with their content, the
+   hook told to stop iff an input was attached, caches / codec / SDP / PAT-PMT
+   wiped), with or without an input *)
+Theorem dispose_finalises cf s :
+  let s' := step cf s EvDispose in
+  g_in s' = false /\ g_subs s' = [] /\ g_gone s' = g_gone s ++ g_subs s /\
+  g_rec_open s' = false /\ g_rec s' = g_rec s /\ g_trec s' = g_trec s /\
+  g_hook s' = (if g_in s && cf_hook cf then hook_stop (g_hook s) else g_hook s) /\
+  g_video_known s' = false /\ g_patpmt s' = None /\ g_sdp s' = None /\
+  prologue (g_rtmp_cache s') false = [] /\ prologue (g_rtmp_cache s') true = [] /\
+  prologue (g_flv_cache s') false = [] /\ gc_all (g_ts_cache s') = [].
+Proof.
+  cbv zeta. cbn [step g_in g_subs g_gone g_rec_open g_rec g_trec g_hook g_video_known g_patpmt g_sdp g_rtmp_cache g_flv_cache g_ts_cache].
+  unfold prologue. cbn [gc_clear gc_meta_w gc_meta_wo gc_vsh gc_ash opt_list app].
+  repeat split; try reflexivity; apply gc_clear_empty.
+Qed.
+
+(* ... once: the teardown of an input that has already ended does not tell the
+   hook again, and a disposed group has nothing left to finalise *)
+Theorem dispose_after_stop cf s :
+  g_hook (step cf (step cf s EvInStop) EvDispose) = g_hook (step cf s EvInStop) /\
+  g_hook (step cf (step cf s EvDispose) EvDispose) = g_hook (step cf s EvDispose) /\
+  g_hook (step cf (step cf s EvDispose) EvInStop) = g_hook (step cf s EvDispose).
+Proof.
+  split; [|split].
+  - cbn [step]. destruct (g_in s) eqn:Hin; cbn [negb].
+    + destruct (partition _ _). cbn [g_in g_hook andb]. reflexivity.
+    + cbn [g_hook]. now rewrite Hin.
+  - cbn [step g_in g_hook andb]. reflexivity.
+  - cbn [step g_in negb]. reflexivity.
 Qed.
